@@ -100,6 +100,7 @@ func ruleF1(c *Ctx, id string) {
 func ruleF2(c *Ctx, id string) {
 	V, P, R := c.V, c.P, c.R
 	R.Rule(id, "postCommit always calls AllocTxn.PostCommit and Abort always calls AllocTxn.PostAbort; neither is called from anywhere else; every commit-family terminator reaches postCommit", 6)
+	cp := commitProtocol(c)
 	for _, pr := range []struct {
 		callee *ssa.Function
 		owner  *ssa.Function
@@ -114,18 +115,15 @@ func ruleF2(c *Ctx, id string) {
 			okCaller := pr.owner != nil && cs.Caller == pr.owner
 			if pr.owner == nil && pr.callee == V.PostCommit {
 				// no postCommit wrapper in this tree: the epilogue is written out in the commit funnel itself
-				for _, f := range []*ssa.Function{V.commitWait, V.CommitFh, V.Commit, V.CommitData, V.CommitUnstable} {
-					if f != nil && partOf(cs.Caller, f) {
-						okCaller = true
-					}
+				if cp.visited[cs.Caller] || cp.visited[ownerOf(cs.Caller)] {
+					okCaller = true
 				}
 			}
-			if fb := funnelBody(c, V.commitWait, funcIs(V.JrnlCommitWait)).Fn; !okCaller && pr.callee == V.PostAbort && cs.Caller == fb {
-				// the undo of a commit the journal refused: only on the false side of jrnl.CommitWait
-				for _, jc := range P.CallsIn(fb, funcIs(V.JrnlCommitWait)) {
-					if cv, isC := jc.(*ssa.Call); isC && everyPathTakes(fb, cs.Instr.Block(), boolEdge(fb, cv, false)) {
-						okCaller = true
-					}
+			if !okCaller && pr.callee == V.PostAbort {
+				// the undo of a commit the journal refused: only ever executed behind a jrnl.CommitWait that
+				// answered false (explored from the commit terminators)
+				if only, met := cp.paSites[cs.Instr]; met && only {
+					okCaller = true
 				}
 			}
 			R.Check(okCaller, id, FuncName(cs.Caller)+"|calls "+pr.callee.Name(), P.Pos(cs.Instr.Pos()), pr.callee.Name()+" is called only from the commit / abort epilogue (PostAbort also on the refused-commit side of the funnel)", "owner", "allocator state updated outside the commit/abort epilogue")
@@ -137,12 +135,17 @@ func ruleF2(c *Ctx, id string) {
 		R.Check(MustAfter(pr.owner, callTo(pr.callee), nil)(entry), id, FuncName(pr.owner)+"|always "+pr.callee.Name(), P.Pos(pr.owner.Pos()), "every path of "+FuncName(pr.owner)+" calls "+pr.callee.Name(), "must-follow from entry", "a path skips the allocator epilogue: freed numbers are never reusable / aborted allocations are never returned")
 	}
 	// ... or, on the side where the journal refused the commit, the abort epilogue (which side is which: C09.A8)
-	post := P.NewAlways(func(in ssa.Instruction) bool { return callTo(V.PostCommit)(in) || callTo(V.PostAbort)(in) })
 	for _, f := range []*ssa.Function{V.Commit, V.CommitData, V.CommitUnstable, V.CommitFh} {
 		if f == nil {
 			continue
 		}
-		R.Check(post.Func(f), id, FuncName(f)+"|reaches postCommit", P.Pos(f.Pos()), "every path of the terminator runs an allocator epilogue: postCommit (release + PostCommit) or, for a refused commit, PostAbort", "always-performs summary", "a commit path neither publishes its frees nor returns its allocations")
+		e := cp.byFn[f]
+		ok := e != nil && !e.exceeded && e.reachedDur && !e.noDurPath && e.noEpilogue == ""
+		why := "not explored as a commit terminator"
+		if e != nil {
+			why = fmt.Sprintf("path returning at %s runs neither (path without commit=%v)", e.noEpilogue, e.noDurPath)
+		}
+		R.Check(ok, id, FuncName(f)+"|reaches postCommit", P.Pos(f.Pos()), "every path of the terminator runs an allocator epilogue: postCommit (release + PostCommit) or, for a refused commit, PostAbort", "holds on every explored path", "a commit path neither publishes its frees nor returns its allocations: "+why)
 	}
 	// Abort must not make writes visible
 	if V.Abort != nil {
